@@ -584,6 +584,18 @@ func verifRandSPM(idx int, out *zzverif.Out) *verifTok {
 	if !allBytes {
 		out.Count("vocab_spm_missing_byte_tokens")
 	}
+	if !(allBytes && hasSep) {
+		// vocabularies outside the round-trip theorem's hypotheses are L1-only: give some of them pieces of the
+		// byte-token SHAPE that ParseUint rejects or accepts oddly (Decode's error branch, `0x_F`), and EOS
+		if r.Chance(2, 3) {
+			for _, p := range []string{"<0xZZ>", "<0x_F>", "<0xF_>", "<0xé>"} {
+				add(p, TOKEN_TYPE_NORMAL, -float32(r.Intn(ties)))
+				pool = append(pool, p)
+			}
+			out.Count("vocab_spm_odd_byte_shaped_pieces")
+		}
+		v.AddEOS = r.Bool()
+	}
 	spm := NewSentencePieceModel(v)
 	// the round-trip theorem's vocabulary hypotheses: all 256 byte tokens and the piece "▁"
 	return (&verifTok{name: fmt.Sprintf("rspm%d", idx), family: "spm", tp: spm, vocab: v, maxRunes: verifMaxRunes(v), covering: allBytes && hasSep, pool: pool, byteIDs: byteIDs}).asTemplate()
